@@ -9,6 +9,38 @@ COMMON_ASSUMPTIONS = [
 ]
 
 PROPS = {
+    "C05": {
+        "level": "exploration",
+        "rule": "rapid draws a valid encoding of one of the 7 decodable kinds (Sign1, untagged Sign1, Sign, Signature, Countersignature, protected bucket, unprotected bucket; peer encoder choices; nested countersignatures up to 3 levels) and applies 1-3 faults at drawn nodes of its CBOR tree, protected-header contents included (retype, tag-wrap, indefinite length, head width, wrong declared count, duplicate key in another width, add/remove/swap element, inject any registered parameter with a conforming or non-conforming value, move a parameter between buckets, out-of-range or non-label key, bytes after the item / inside the protected bstr, change of major type, content and integer edits, byte-level flip/insert/delete/truncate/append). The same bytes are offered to all 7 decoders. Oracle: decoder accepts => the independent reference judge finds the input well-formed for that decoder exactly in the sense of the property statement. Non-trivial = the input differs from its seed and either some decoder accepted it (the implication was evaluated on a new input) or the reference finds it ill-formed for the seed's own kind (a rejection rule was put to the test); distinct by hash of the input. Thorough adds coverage-guided native fuzzing with the same oracle inside the target (seeded and empty corpus).",
+        "parts": [
+            {"test": "TestC05_Mutants", "quick": 5000, "thorough": 120000, "shards_quick": 6, "shards_thorough": 16},
+            {"test": "TestC05_Valid", "quick": 500, "thorough": 5000, "shards_quick": 1, "shards_thorough": 2},
+            {"fuzz": "FuzzC05", "fuzztime": "150s", "thorough_only": True},
+            {"fuzz": "FuzzC05", "fuzztime": "60s", "thorough_only": True, "noseeds": True},
+        ],
+        "required_classes": ["accepted/Sign1", "accepted/Sign1Untagged", "accepted/Sign", "accepted/Signature", "accepted/Countersignature",
+                             "accepted/ProtectedHeader", "accepted/UnprotectedHeader",
+                             "rejected-illformed-clause/trailing", "rejected-illformed-clause/indefinite", "rejected-illformed-clause/tag",
+                             "rejected-illformed-clause/shape", "rejected-illformed-clause/payload", "rejected-illformed-clause/signature",
+                             "rejected-illformed-clause/protected", "rejected-illformed-clause/unprotected", "rejected-illformed-clause/label",
+                             "rejected-illformed-clause/dup-key", "rejected-illformed-clause/alg", "rejected-illformed-clause/crit",
+                             "rejected-illformed-clause/cty", "rejected-illformed-clause/bstr-param", "rejected-illformed-clause/csig-bucket",
+                             "rejected-illformed-clause/csig-value", "rejected-illformed-clause/iv",
+                             "fault-depth/0", "fault-depth/1", "fault-depth/2", "fault-depth/3", "fault-depth/4", "fault-depth/5", "fault-depth/6"],
+        "assumptions": COMMON_ASSUMPTIONS + ["only the direction 'accepted => well-formed' is judged; well-formed inputs that are refused (documented limits: integers beyond int64, registered tags, invalid UTF-8, unhashable nested map keys) are counted, not judged"],
+    },
+    "C06": {
+        "level": "exploration",
+        "rule": "inputs: the C05 mutants (all 7 message/signature/header kinds), mutated and unmutated COSE_Keys (EC2 P-256/384/521, OKP, symmetric, custom kty; key-specific parameter faults), random bytes, deep nesting / huge declared lengths. Each input is given to all 9 entry points (7 decoders, Key.UnmarshalCBOR, VerifyHashEnvelope) inside recover; every value a decoder returned is then re-encoded (raw bytes kept and discarded), verified with verifiers of 5 algorithm families with and without external data, countersigned (full and abbreviated, pointer and value parents), all nested countersignatures verified, header accessors called, re-signed; keys: every accessor, PublicKey/PrivateKey/Signer/Verifier and a Sign/Verify with the results. Oracle: no panic anywhere; decoding an input <= 64 KiB finishes within 5 s (re-measured 3 times before it counts). Non-trivial = at least one entry point decoded the input so that follow-ups ran; distinct by hash of the input. Thorough adds native fuzzing of the same target.",
+        "parts": [
+            {"test": "TestC06_Mutants", "quick": 2500, "thorough": 60000, "shards_quick": 6, "shards_thorough": 16},
+            {"fuzz": "FuzzC06", "fuzztime": "150s", "thorough_only": True},
+            {"fuzz": "FuzzC06", "fuzztime": "60s", "thorough_only": True, "noseeds": True},
+        ],
+        "required_classes": ["decoded/Sign1", "decoded/Sign1Untagged", "decoded/Sign", "decoded/Signature", "decoded/Countersignature",
+                             "decoded/ProtectedHeader", "decoded/UnprotectedHeader", "decoded/Key", "op/random-bytes", "op/deep-nesting"],
+        "assumptions": COMMON_ASSUMPTIONS + ["promptness is checked against a 5 s deadline on inputs up to 64 KiB only"],
+    },
     "C01": {
         "level": "exploration",
         "rule": "rapid draws an abstract message (Sign1 tagged/untagged incl. the Sign1()/Sign1Untagged() helpers, COSE_Sign with 1..6 signers, full and abbreviated countersignatures over Sign1/Sign/Signature/Countersignature parents as pointer and value, constructed or decoded parent, up to 3 levels; hash envelopes), headers from the data model with random Go spellings, payload/external lengths on the CBOR head boundaries, all 7 built-in algorithms with keys from drawn scalars / RSA fixtures (a fifth via COSE_Key round trip). Oracle: library Sign ok => library Verify ok in memory, after MarshalCBOR/UnmarshalCBOR (detached payload restored), for every layer, and the independent reference verifier accepts the same wire bytes. Non-trivial = signing succeeded and the wire round trip was verified; distinct by hash of the abstract case (hash envelopes: wire without signature).",
